@@ -57,6 +57,20 @@ EXC: Dict[str, type] = {
 }
 
 
+OBJECTS: Dict[str, Any] = {
+    "object": object(), "set": {1, 2}, "complex": 1j, "lambda": (lambda: 0), "bytes": b"\x00\xff",
+    "tuple": (1, (2, 3)), "exception_instance": ValueError("as a value"), "type": dict, "nan": float("nan"),
+}
+
+
+def ret_value(sp: Dict[str, Any], i: int) -> Any:
+    if "rvobj" in sp:
+        return OBJECTS[sp["rvobj"]]
+    if "rv" in sp:
+        return sp["rv"]
+    return ["rv", i]
+
+
 def msg_index(task_id: Any) -> Any:
     if isinstance(task_id, str) and task_id.startswith("id"):
         try:
@@ -262,7 +276,7 @@ def register_timing_tasks(broker: ScriptedBroker, tr: Trace, sc: Dict[str, Any])
                 await asyncio.sleep(d)
             if sp["out"] not in ("ret", "never"):
                 raise EXC[sp["out"]]()
-            return ["rv", i]
+            return ret_value(sp, i)
         finally:
             tr.add("exit", i)
 
@@ -272,7 +286,7 @@ def register_timing_tasks(broker: ScriptedBroker, tr: Trace, sc: Dict[str, Any])
         try:
             if sp["out"] not in ("ret", "never"):
                 raise EXC[sp["out"]]()
-            return ["rv", i]
+            return ret_value(sp, i)
         finally:
             tr.add("exit", i)
 
